@@ -267,7 +267,7 @@ def run_assign(case, stt):
 def copy_case(draw):
     spec = draw(G.signal_spec(nmin=0, nmax=6, nchan_max=4, max_trailing=1))
     return {"sig": spec, "how": draw(st.sampled_from(["like", "like_data", "pickle", "compute", "persist", "to_dask_array", "rechunk", "rechunk_arg",
-                                                      "dask_pickle", "dask_compute", "like_other_class"])),
+                                                      "dask_pickle", "dask_compute", "like_other_class", "copy", "deepcopy", "dask_deepcopy"])),
             # history: after the first copy one attribute of the ORIGINAL is re-assigned and the copy is taken again
             "again": draw(st.sampled_from([None, "pol_type", "center_freq", "start_time", "freq_align", "meta", "sample_rate"])), "t": draw(G.time0())}
 
@@ -287,6 +287,18 @@ def run_copy(case, stt):
             y = type(z).like(z, z.data.copy())
         elif how == "pickle":
             y = pickle.loads(pickle.dumps(z))
+        elif how == "copy":
+            import copy as _copy
+
+            y = _copy.copy(z)
+        elif how == "deepcopy":
+            import copy as _copy
+
+            y = _copy.deepcopy(z)
+        elif how == "dask_deepcopy":
+            import copy as _copy
+
+            y, want_dask = _copy.deepcopy(z.to_dask_array()), True
         elif how == "compute":
             y, want_dask = z.compute(), False
         elif how == "persist":
